@@ -92,7 +92,7 @@ def ref_ggh(bits, p):
 
 # ---- in-process part ------------------------------------------------------------
 
-def hash_shard(config, seed, n_examples, import_ctx="top"):
+def hash_shard(config, seed, n_examples, import_ctx="top", long_lengths=()):
     """import_ctx: where this process imports the hash modules for the first time (the test suite recommends importing
     inside functions): at top level, inside a region guarded by a false / true secret condition, or under ignore_errors"""
     from harness import env, r1cs
@@ -148,6 +148,23 @@ def hash_shard(config, seed, n_examples, import_ctx="top"):
             stats.violations.append({"case": case, "key": "vector", "msg": "published vector of %s not reproduced (gadget ok: %s, reference ok: %s)" % (
                 config, got == VECTORS[config], refv == VECTORS[config])})
             return stats
+    # messages of many blocks (lengths around 256 and beyond: dozens to hundreds of sponge rounds), also with one more element
+    # in the same final block
+    for L in long_lengths:
+        msg = [(i * 7919 + 13) % 1000 for i in range(L)]
+        case = {"config": config, "part": "hash", "msg": msg, "kinds": "I" * L}
+        nsl = env.reset(p, 16, 8)
+        ins = [rt.PrivVal(v) for v in msg]
+        got = [x.value % p for x in ph.poseidon_hash(ins)]
+        stats.case({"config": config, "part": "hash", "long_message_of": L}, True, ("hash:long", "blocks:%d" % (L // 4 + 1)))
+        if got != ref_hash(msg, consts, p):
+            stats.violations.append({"case": case, "key": "hash-long", "msg": "hash of a message of %d elements (%d blocks) differs from the plain reference" % (L, L // 4 + 1)})
+            return stats
+        if len(ins) != L or r1cs.evaluate(nsl.rec.snapshot()):
+            stats.violations.append({"case": case, "key": "hash-long", "msg": "hash of a message of %d elements: argument list changed or a constraint is violated" % L})
+            return stats
+    if long_lengths:
+        return stats
     # coefficient derivation of the subset-sum hash, index by index (rejection sampling: rare indices need many retries)
     ncoef = 3000 if n_examples < 100 else 120000
     if import_ctx != "top":
@@ -390,7 +407,7 @@ def replay(case):
         # compared with the reference after ALL calls were made
         import subprocess, sys
         code = ("import sys, json; sys.path[:0]=[%r,%r]; from harness.checks import c20; "
-                "m = c20.replay_inproc(json.loads(sys.stdin.read())); print('REPLAY-RESULT ' + json.dumps(m))" % (
+                "m = c20.replay_guarded(json.loads(sys.stdin.read())); print('REPLAY-RESULT ' + json.dumps(m))" % (
                     core.ROOT, os.environ.get("VERIF_REPO", "/repo")))
         r = subprocess.run([sys.executable] + (["-O"] if case.get("python_optimise") else []) + ["-c", code], input=json.dumps(case),
                            capture_output=True, text=True)
@@ -400,6 +417,17 @@ def replay(case):
         raise core.HarnessError("C20 replay child failed: %s" % r.stderr[-300:])
     st_ = hash_shard(case["config"], 1, 1)     # vectors and coefficient prefix
     return "; ".join(v["msg"] for v in st_.violations) or None
+
+
+def replay_guarded(case):
+    """replay_inproc; an exception raised by the library on a saved (valid) case is a result, not a crash of the replay"""
+    try:
+        return replay_inproc(case)
+    except Exception as e:
+        lib = core.library_frame(e)
+        if lib is None:
+            raise
+        return "the library raised %s: %s at %s on a saved case" % (type(e).__name__, e, lib)
 
 
 def replay_inproc(case):
@@ -449,6 +477,9 @@ def run(ctx):
     # the same differential after a first import inside a guarded region / under ignore_errors
     jobs += [dict(config=c, seed=ctx.seed * 1000 + 700 + 7 * i + k, n_examples=5 if ctx.tier == "quick" else 150, import_ctx=ic)
              for i, c in enumerate(CONFIG_MODULE) for k, ic in enumerate(["false-guard", "true-guard", "ignore", "lazy-branch", "first-call-false-guard", "first-call-true-guard"])]
+    for c in CONFIG_MODULE:
+        for Ls in ([[256], [257]] if ctx.tier == "quick" else [[255, 256], [257, 258], [300, 513], [1000]]):
+            jobs.append(dict(config=c, seed=0, n_examples=0, long_lengths=Ls))
     total = core.run_shards("harness.checks.c20", "hash_shard", jobs)
     total.merge_json(core.run_shards_optimised("harness.checks.c20", "hash_shard",
                                                [dict(config=c, seed=ctx.seed * 1000 + 900 + i, n_examples=12) for i, c in enumerate(CONFIG_MODULE)]).to_json())
